@@ -857,9 +857,19 @@ impl<H: DnsHandle> DnssecDnsHandle<H> {
                     return None;
                 }
 
-                // TODO: Should this sig.signer_name should be confirmed to be in the same zone as
-                // the rrsigs and rrset?
-                //
+                // The signer must be the zone that contains the RRset (RFC 4035 section 5.3.1), so
+                // its name is either the owner name or one of its ancestors. The keys of any other
+                // zone say nothing about this RRset.
+                if !query.name.zone_of(&key.name) {
+                    warn!(
+                        rrset_name = ?key.name,
+                        rrset_type = ?key.record_type,
+                        signer_name = %query.name,
+                        "RRSIG signer name is not the zone of the rrset; skipping"
+                    );
+                    return None;
+                }
+
                 // Break verification cycle
                 if query.name == original_query.name
                     && query.query_type == original_query.query_type
@@ -1360,8 +1370,9 @@ impl RrsigValidity {
 
             // "The RRSIG RR's Signer's Name field MUST be the name of the zone that contains the
             // RRset"
-            // There is nothing to check here, but this does tell us which zone a signature comes
-            // from.
+            // The zone that contains the RRset is not known here, but its apex can only be the
+            // owner name or one of its ancestors.
+            sig_input.signer_name.zone_of(rrsig.name()) &&
 
             // "The RRSIG RR's Type Covered field MUST equal the RRset's type"
             sig_input.type_covered == key.record_type &&
